@@ -118,6 +118,7 @@ SCENARIOS = [
     ("colliding-unregister", "c", 2, 2, "r:%s" % X1, ["u:%s" % X1, "r:%s/e:1:1" % X2, "u:%s" % X2]),
     ("hist-last-slot", "h", 1, 1, "-", ["r:%s/e:0:1" % A, "r:%s/e:0:1" % B, "r:%s/e:0:1" % B]),
     ("hist-double-unregister", "h", 2, 1, "r:%s/r:%s" % (A, B), ["u:%s" % A, "u:%s/r:%s/r:%s" % (A, C, D)]),
+    ("hot-handle-emitters", "c", 2, 1, "r:%s" % A, ["e:0:1/e:0:2/e:0:3", "e:0:1/e:0:2/e:0:3", "e:0:5/a:%s:7" % A]),
     ("unbounded-creators", "c", -1, 1, "-", ["r:%s/e:0:1" % A, "r:%s/e:0:1" % B, "r:%s/e:0:1" % A]),
 ]
 
@@ -164,18 +165,18 @@ def gen_cases(rng, tier, budget):
     nseq = (budget or 700) if quick else (budget or 20000)
     for i in range(nseq):
         cases.append(gen_seq(rng, long=(i % 10 == 0)))
-    rounds = 6000 if quick else 60000
+    rounds = 6000 if quick else 30000
     for name, kind, cap, nl, setup, progs in SCENARIOS:
         cases.append(conc_line(kind, cap, nl, rounds, 0, setup, progs))
     for name, kind, cap, nl, setup, progs in SCENARIOS[:3] + SCENARIOS[5:6]:
         cases.append(conc_line(kind, cap, nl, rounds // 3, 1, setup, progs))
-    for _ in range(6 if quick else 120):
+    for _ in range(6 if quick else 60):
         cases.append(gen_conc_random(rng, rounds // 2))
     # the same under the race detector (different scheduling, and data races would fail the run)
-    rr = 1500 if quick else 12000
+    rr = 1500 if quick else 8000
     for name, kind, cap, nl, setup, progs in (SCENARIOS[1:2] + SCENARIOS[5:6] + SCENARIOS[7:8]) if quick else SCENARIOS:
         cases.append(conc_line(kind, cap, nl, rr, 1, setup, progs, race=True))
-    for _ in range(2 if quick else 30):
+    for _ in range(2 if quick else 15):
         cases.append(gen_conc_random(rng, rr, race=True))
     return cases
 
@@ -221,6 +222,8 @@ def rejected(model_line):
 
 
 def nontrivial(case, out):
+    if out in ("hang", "skipped-after-hang"):
+        return False
     if case.startswith("seq"):
         toks = out.split()
         return any(t.startswith("h") for t in toks) and any(t in ("t", "1", "panic") for t in toks)
@@ -230,6 +233,8 @@ def nontrivial(case, out):
 def classify(case, impl, model):
     if impl.strip() == "hang":
         return "P", "harness watchdog fired: an emitter, the tick or a subscriber blocked (non-blocking clause)"
+    if impl.strip() == "skipped-after-hang":
+        return "G", "not run: an earlier case of the batch hung"
     if case.startswith("seq"):
         it, mt, ops = impl.split(), model.split(), case.split()[5:]
         for i, (a, b) in enumerate(zip(it, mt)):
